@@ -67,6 +67,21 @@ CLAIMED.update({
    "deterministic simulation: simulated network with seeded loss/delay/refusal/truncation faults, discrete-event clock for deadlines, marker-based history oracle", "4 (C18)"),
 })
 
+CLAIMED.update({
+ "C19": ("exploration",
+   "Seeded small internets (root + up to 3 levels, 1-2 NS per zone on 2-6 scripted authoritative servers, NS host names in / above / beside the zone, glue present / absent / dead, lame and faulty servers, CNAME chains and loops across zones) resolved by the real Recursor down to the simulated sockets; hostile servers append records whose owner lies outside every zone they were ever delegated (each injection has its own marker address and its own trigger class); oracles over the recorded history: no injected record is returned, contacted as a name server or resurfaces after all servers turned honest; denied server / answer addresses never contacted / returned; every resolution ends within the step budget and a query cap; plain worlds resolve to the truth.",
+   "Authoritative servers are a scripted stub (RFC 1034 4.3.2 subset); a hostile server lies only outside its bailiwick; non-validating recursor only; stub-resolver alias chasing is not driven separately.",
+   "deterministic simulation: generated internet on the simulated network, seeded hostile-record injection / lame / silent / dead-glue faults, marker-based history oracle, discrete-event clock for timeouts", "4 (C19)"),
+ "C11": ("exploration",
+   "Seeded catalogs (nested, sibling, look-alike and root zones with zone markers, optional Skip handler in front) and allow/deny sets behind the real Server front gate (guarded hook = the call the socket loops make); 3-14 concurrent requests per run built by the rig's own encoder: valid queries over every opcode / QR / EDNS version / class / type, truncations, single-byte mutations, wrong question counts, random bytes, over UDP and TCP; oracle: 0 responses for short or QR=1 messages, else exactly 1 with the id and QR, NOTIMP / REFUSED / BADVERS / question echo / marker of the longest enclosing zone for constructed-valid requests (reference access-control and longest-suffix models), and a final probe that must still be served.",
+   "The tokio UDP/TCP socket loops themselves (sanitize_src_address, per-connection timeout, task spawning) are replaced by simulator tasks; for corrupted requests only count/id/QR (and NOTIMP for unknown opcodes) are asserted.",
+   "deterministic simulation: concurrent request tasks under the seeded scheduler through the guarded server hook, hostile-input fault classes, reference model of the gate", "4 (C11)"),
+ "C03": ("exploration",
+   "End-to-end form only: zones with RRsets large enough to meet every limit (0-300 TXT of 1-249 bytes, 0-4200 A, 0-13 NS with padded targets, 0-12 MX) queried with no EDNS or advertised sizes {0..65535}, DO on/off, each query over UDP and as a twin over TCP through the real Server front gate and MessageResponse::encode; invariants per response: UDP length <= max(512, advertised), TCP <= 65535, the bytes walk exactly to their end by the header counts (own wire walker), decode, every UDP section is a prefix of the twin's, TC set iff something (OPT included) was dropped.",
+   "The encoder-level clause (arbitrary messages x arbitrary limits) is a pure function and is not claimed beyond the responses these runs produce; a seeded encoder change that needs a later record to reuse a name introduced by a dropped record is not reachable through the in-memory zone handler's responses (see DESIGN.md).",
+   "deterministic simulation: UDP/TCP twin requests through the guarded server hook, size-limit boundary plans, structural wire oracle", "4 (C03)"),
+})
+
 NOT_BUILT = {}
 
 def main():
@@ -120,7 +135,7 @@ def main():
     except ImportError:
         print("jsonschema not importable here; run with python3-vt")
 
-HOOK_COMMITS = []
+HOOK_COMMITS = ["8ec5480"]
 
 if __name__ == "__main__":
     main()
